@@ -10,7 +10,7 @@ from .sexp import Q, dump
 
 FIELD_NAMES = ["id", "name", "userID", "user_name", "URL", "Age", "HTTPServer", "createdAt", "count",
                "Label", "x", "y", "avatar_url", "kind", "Value", "isOK", "n2", "APIKey", "email", "Score", "zip_code",
-               "settings", "setup_done", "getter", "newVal"]
+               "settings", "setup_done", "getter", "newVal", "sha_256sum", "top_3rd", "utf_8", "v_2x"]
 COLLIDING_NAMES = ["ID", "Id", "UserID", "Name", "Url"]
 KEYWORD_NAMES = ["Type", "Func", "Range", "Map", "Default", "type_", "Go"]
 EMBED_NAMES = ["Base", "Meta", "inner", "Audit", "Core", "Extra", "node", "Owner"]
